@@ -133,7 +133,16 @@ def run_bounded(prop, tier, seed):
         raise
     ctx = BoundedCtx(prop, tier, seed)
     m.run(ctx)
+    if prop in HISTORY_PROPS:
+        # history independence (bounded/history.py): the queries this property speaks about answer on an object with a history
+        # (earlier queries, in-place writes, copies, transforms) what they answer on a tree built afresh from its current columns
+        from bounded import history
+
+        history.run(ctx, getattr(history, "Q_" + prop))
     return ctx
+
+
+HISTORY_PROPS = ("C03", "C08", "C09", "C10", "C11")
 
 
 def finding_matches(k, prop, oblig=None, carrier=None, clause=None, input=None):
@@ -532,6 +541,12 @@ def do_replay(prop, path):
 
         ok = cmreplay.rerun(fi)
         print("replay:", "the real code no longer shows the recorded behaviour" if ok else "FAILS on the real code (same behaviour as recorded)")
+        return 0 if ok else 1
+    if isinstance(fi["replay"], dict) and fi["replay"].get("kind") == "history":
+        from bounded import history
+
+        ok = history.replay(getattr(history, "Q_" + prop), fi["replay"])
+        print("replay:", "property holds on this input now" if ok else "FAILS on the real code")
         return 0 if ok else 1
     m = importlib.import_module(f"bounded.{prop}")
     ok = m.replay(fi["replay"])
